@@ -479,6 +479,13 @@ class C12Monitor(Monitor):
     def _can_read_app(self, ep):
         return True
 
+    def _amplification_limited(self, ep):
+        try:
+            p = ep.conn._network_paths[0]
+            return (not ep.conn._is_client) and (not p.is_validated) and p.bytes_received * 3 - p.bytes_sent < 64 + 40
+        except Exception:
+            return False
+
     def _space_discarded(self, ep, sp):
         from aioquic import tls
 
@@ -494,8 +501,14 @@ class C12Monitor(Monitor):
             self.oblig[x] = []
             return
         rem = []
+        limited = self._amplification_limited(ep)
         for sp, pn, dl in self.oblig[x]:
             if sp != "app" and self._space_discarded(ep, sp):
+                continue
+            if dl is not None and limited:
+                # RFC 9000 8.1: towards an address it has not validated the endpoint may not have the budget for an ACK frame;
+                # the clock starts when it can send again
+                rem.append((sp, pn, max(dl, now + self.max_ack_delay + 0.002)))
                 continue
             if dl is not None and now > dl + 0.001:
                 sim.violation("ack-later-than-max-ack-delay", "%s has not acknowledged ack-eliciting packet %d (app space, highest so far) by t=%.4f; it arrived at t=%.4f and the advertised max_ack_delay is 25 ms" % (x, pn, now, dl - self.max_ack_delay - 0.002))
